@@ -16,7 +16,7 @@ CHECKS = {
                 text="Every reachable state and transition of the bounded scopes (full 2-object alphabet, 3-object chains, trace-fault scope, dynamic-root scope with weak upgrades) is executed on the real Arena; after every operation the drop log and the allocator log are compared with shadow reachability and the real graph is traversed in lock-step with the shadow. The harness root has a destructor that asks the tracking allocator whether everything it points to is still allocated (every execution ends with drop(Arena)); a grid re-types the root through map_root / try_map_root (non-tracing <-> pointer-holding root types) around every operation sequence up to length 4 (thorough 5).",
                 tech="explicit-state BFS over the real Arena by re-execution, closed scopes, shadow-model oracle"),
     "C02": dict(engine="explorer", cat="model_checking", ref="5/C02",
-                text="In every distinct state of the scopes a probe runs finish_cycle twice and compares survivors and Gc count with the shadow (exactly the reachable set plus weakly referenced shells), then clears the weak references and requires the shells to be released by one more cycle.",
+                text="In every distinct state of the scopes a probe makes one more unreachable object (if the scope has room), runs finish_cycle twice and compares survivors and Gc count with the shadow (exactly the reachable set plus weakly referenced shells), then clears the weak references and requires the shells to be released by one more cycle.",
                 tech="explicit-state BFS + per-state probe (2x finish_cycle) against shadow reachability"),
     "C03": dict(engine="explorer", cat="model_checking", ref="5/C03",
                 text="Every callback of every transition is bracketed (no destructor run, no Gc block released between entry and exit) and in every state a probe enters each callback kind under 1e9 artificial debt, allocates temporaries, upgrades all weak pointers and re-reads them at exit. Callbacks that mutate and then unwind are bracketed too, and the probe nests rootless_mutate in the callback and in itself (the end of the inner call destructs exactly the inner call's allocations). The builder grid of C18 runs as a further stage (every builder kind incl. the Static-unwrapping conversions completes and abandons allocations inside a callback: nothing released while it runs).",
@@ -37,10 +37,10 @@ CHECKS = {
                 text="Contract table (phase before, call, debt class zero/epsilon/huge) -> allowed (phase after, MarkedArena returned) checked on every transition and by a probe performing each API call with each debt class from every state. Root operations also go through map_root / try_map_root, and the root re-typing grid checks the protocol across a change of the root type. A compile-time half checks that a MarkedArena is a linear token (consumed by finalize / start_sweeping, borrows the arena mutably, cannot be cloned, forged, opened or outlive it; no Finalization context from a Mutation or for another arena).",
                 tech="explicit-state BFS + per-state probe of every API call x debt class"),
     "C10": dict(engine="explorer", cat="model_checking", ref="5/C10",
-                text="Metrics scope with the integer counters in the canonical state (non-tracing leaf objects, trace faults), barrier scope and a depth-bounded natural-debt scope with adjust_debt operations: count vs allocator, debt sign/finite/zero-when-empty, adjust exactness, debt never decreased by callbacks beyond forward-barrier mark credit, no panic (overflow checks and debug assertions are on); the harness's own debt normalisation before every debt-driven call is an oracle too (an adjustment of 1e6 cannot vanish, a positive debt adjusted to a target reads the target). A finalization scope covers write barriers on an object revived in the same callback.",
+                text="Metrics scope with the integer counters in the canonical state (non-tracing leaf objects, trace faults), barrier scope and a depth-bounded natural-debt scope with adjust_debt operations: count vs allocator, debt sign/finite/zero-when-empty, adjust exactness, debt never decreased by callbacks beyond forward-barrier mark credit, no panic (overflow checks and debug assertions are on); the harness's own debt normalisation before every debt-driven call is an oracle too (an adjustment of 1e6 cannot vanish, a positive debt adjusted to a target reads the target), and in every state an adjustment by exactly zero must leave the reported debt where it was (a stale cached value shows there). A finalization scope covers write barriers on an object revived in the same callback.",
                 tech="explicit-state BFS with metric counters in the state hash; allocator-based count oracle"),
     "C11": dict(engine="explorer", cat="fault_enumeration", ref="5/C11",
-                text="Fault transitions (panic in the k-th Collect::trace call of each collector call, panicking mutate / mutate_root callbacks after they mutated) from every state, unlimited repeats, also the same faulty call ten times within one transition (a trace method that keeps panicking); the caught state continues to be explored under the C01/C05 oracles and C02/C04 probes.",
+                text="Fault transitions (panic in the k-th Collect::trace call of each collector call, panicking mutate / mutate_root callbacks after they mutated) from every state, unlimited repeats, also the same faulty call ten times within one transition (a trace method that keeps panicking), a finalization scope whose finalize callback resurrects and then unwinds; the per-state probes also run on every transition that ends in a caught panic and lands on an already known state (what unwinding leaves behind inside the library would be merged away); the caught state continues to be explored under the C01/C05 oracles and C02/C04 probes.",
                 tech="exhaustive fault-point enumeration inside explicit-state BFS"),
     "C14": dict(engine="explorer", cat="model_checking", ref="5/C14",
                 text="Stash / bulk stash (an existing and a fresh object in one callback) / stash-after-upgrade / clone / drop / fetch over 1-2 sets and up to 3 handles interleaved with collector increments, slot table in the state hash; handles are roots of the shadow (safety oracle + C02 probe = alive exactly while a handle exists); probes present every handle to the sibling set, to another arena's set and, after dropping the arena, to a live set; one scope repeats the probe on an explorer built without debug assertions and overflow checks.",
